@@ -88,11 +88,6 @@ theorem eff_u32f64 (F : FpuSpec) (s : FState) : ∃ s', run F u32f64.instrs s = 
     s'.st = s.st ∧ s'.cw = s.cw ∧ s'.x.get .rsp = s.x.get .rsp :=
   ⟨_, rfl, rfl, rfl, rfl, rfl⟩
 
-theorem eff_u64f32 (F : FpuSpec) (s : FState) : ∃ s', run F u64f32.instrs s = some s' ∧
-    s'.xmm0.setWidth 32 = F.cvtsi2ss64 (s.x.get .rax) ∧
-    s'.st = s.st ∧ s'.cw = s.cw ∧ s'.x.get .rsp = s.x.get .rsp :=
-  ⟨_, rfl, setLow32_low _ _, rfl, rfl, rfl⟩
-
 /-! ### float / double → integer (SSE, registers only): what is left in %rax -/
 
 theorem eff_f32i8 (F : FpuSpec) (s : FState) : ∃ s', run F f32i8.instrs s = some s' ∧
@@ -130,11 +125,6 @@ theorem eff_f32u32 (F : FpuSpec) (s : FState) : ∃ s', run F f32u32.instrs s = 
     s'.st = s.st ∧ s'.cw = s.cw ∧ s'.x.get .rsp = s.x.get .rsp :=
   ⟨_, rfl, rfl, rfl, rfl, rfl⟩
 
-theorem eff_f32u64 (F : FpuSpec) (s : FState) : ∃ s', run F f32u64.instrs s = some s' ∧
-    s'.x.get .rax = F.cvttss2si64 (s.xmm0.setWidth 32) ∧
-    s'.st = s.st ∧ s'.cw = s.cw ∧ s'.x.get .rsp = s.x.get .rsp :=
-  ⟨_, rfl, rfl, rfl, rfl, rfl⟩
-
 theorem eff_f64i8 (F : FpuSpec) (s : FState) : ∃ s', run F f64i8.instrs s = some s' ∧
     s'.x.get .rax = (((F.cvttsd2si32 s.xmm0).setWidth 8).signExtend 32).setWidth 64 ∧
     s'.st = s.st ∧ s'.cw = s.cw ∧ s'.x.get .rsp = s.x.get .rsp :=
@@ -166,11 +156,6 @@ theorem eff_f64u16 (F : FpuSpec) (s : FState) : ∃ s', run F f64u16.instrs s = 
   ⟨_, rfl, rfl, rfl, rfl, rfl⟩
 
 theorem eff_f64u32 (F : FpuSpec) (s : FState) : ∃ s', run F f64u32.instrs s = some s' ∧
-    s'.x.get .rax = F.cvttsd2si64 s.xmm0 ∧
-    s'.st = s.st ∧ s'.cw = s.cw ∧ s'.x.get .rsp = s.x.get .rsp :=
-  ⟨_, rfl, rfl, rfl, rfl, rfl⟩
-
-theorem eff_f64u64 (F : FpuSpec) (s : FState) : ∃ s', run F f64u64.instrs s = some s' ∧
     s'.x.get .rax = F.cvttsd2si64 s.xmm0 ∧
     s'.st = s.st ∧ s'.cw = s.cw ∧ s'.x.get .rsp = s.x.get .rsp :=
   ⟨_, rfl, rfl, rfl, rfl, rfl⟩
@@ -331,14 +316,6 @@ theorem eff_f80i64 (F : FpuSpec) (s : FState) (v : BitVec 80) (rest : List (BitV
   simp only at h; subst h
   from_f80
 
-theorem eff_f80u64 (F : FpuSpec) (s : FState) (v : BitVec 80) (rest : List (BitVec 80)) (h : s.st = v :: rest) :
-    ∃ s', run F f80u64.instrs s = some s' ∧
-    s'.x.get .rax = F.fistp64 (s.cw ||| 3072#16) v ∧
-    s'.st = rest ∧ s'.cw = s.cw ∧ s'.x.get .rsp = s.x.get .rsp := by
-  obtain ⟨x, xmm0, xmm1, st, cw⟩ := s
-  simp only at h; subst h
-  from_f80
-
 /-! ### the two branchy cells: unsigned long → double / long double -/
 
 theorem runFrom_step (F : FpuSpec) (i : Ins) (is : List Ins) (s s' : FState)
@@ -449,5 +426,305 @@ theorem eff_u64f80_neg (F : FpuSpec) (s : FState) (h : (s.x.get .rax).msb = true
     · dsimp only; x86_norm
       simp only [State.get, State.regs_write64]
 
+
+
+/-! ### the repaired cells for unsigned long at ≥ 2^63 -/
+
+theorem step_mov_c32 (F : FpuSpec) (s : FState) :
+    Fp.step F ⟨"mov", [.s "$0x5f000000", .r "%eax"]⟩ s = some { s with x := s.x.setW .rax .w32 0x5f000000#32 } := rfl
+
+theorem step_mov_c64 (F : FpuSpec) (s : FState) :
+    Fp.step F ⟨"mov", [.s "$0x43e0000000000000", .r "%rax"]⟩ s = some { s with x := s.x.set .rax 0x43e0000000000000#64 } := rfl
+
+/-- unsigned long → float, top bit clear: the plain signed conversion -/
+theorem eff_u64f32_nonneg (F : FpuSpec) (s : FState) (h : (s.x.get .rax).msb = false) :
+    ∃ s', Fp.run F u64f32.instrs s = some s' ∧ s'.xmm0.setWidth 32 = F.cvtsi2ss64 (s.x.get .rax) ∧
+    s'.st = s.st ∧ s'.cw = s.cw ∧ s'.x.get .rsp = s.x.get .rsp := by
+  obtain ⟨x, xmm0, xmm1, st, cw⟩ := s
+  simp only at h
+  have hsf : ((x.get Reg.rax) &&& (x.get Reg.rax)).msb = false := by simpa using h
+  refine ⟨?w, ?hrun, ?rest⟩
+  case hrun =>
+    simp only [Fp.run, u64f32, Line.instrs]
+    rw [runFrom_step F _ _ _ _ rfl rfl rfl]
+    rw [runFrom_jcc F _ _ _ true _ "1f" "1:" rfl rfl (fun _ => rfl) rfl]
+    dsimp only
+    simp only [State.flags, State.src, State.getW, W.bits, BitVec.setWidth_eq, hsf, Bool.false_eq_true, if_false]
+    rfl
+  case rest =>
+    exact ⟨setLow32_low _ _, rfl, rfl, rfl⟩
+
+/-- unsigned long → float, top bit set: halve with the lost bit or-ed back in (sticky), convert, double -/
+theorem eff_u64f32_neg (F : FpuSpec) (s : FState) (h : (s.x.get .rax).msb = true) :
+    ∃ s', Fp.run F u64f32.instrs s = some s' ∧
+    s'.xmm0.setWidth 32 = F.addss (F.cvtsi2ss64 ((s.x.get .rax) >>> 1 ||| ((s.x.get .rax) &&& 1#64)))
+                                  (F.cvtsi2ss64 ((s.x.get .rax) >>> 1 ||| ((s.x.get .rax) &&& 1#64))) ∧
+    s'.st = s.st ∧ s'.cw = s.cw ∧ s'.x.get .rsp = s.x.get .rsp := by
+  obtain ⟨x, xmm0, xmm1, st, cw⟩ := s
+  simp only at h
+  have hsf : ((x.get Reg.rax) &&& (x.get Reg.rax)).msb = true := by simpa using h
+  refine ⟨?w, ?hrun, ?rest⟩
+  case hrun =>
+    simp only [Fp.run, u64f32, Line.instrs]
+    rw [runFrom_step F _ _ _ _ rfl rfl rfl]
+    rw [runFrom_jcc F _ _ _ true _ "1f" "1:" rfl rfl (fun _ => rfl) rfl]
+    dsimp only
+    simp only [State.flags, State.src, State.getW, W.bits, BitVec.setWidth_eq, hsf, if_true]
+    rfl
+  case rest =>
+    refine ⟨?_, rfl, rfl, rfl⟩
+    dsimp only
+    rw [setLow32_low, setLow32_low]
+    simp only [aluExec, State.flags, State.src, State.getW, State.setW, W.bits, State.get, State.set, reduceCtorEq, if_false,
+      if_true, ite_false]
+    have e : (BitVec.setWidth 32 (x.regs Reg.rax) &&& BitVec.ofInt 32 1).setWidth 64 = x.regs Reg.rax &&& 1#64 := by
+      apply BitVec.eq_of_getLsbD_eq
+      intro i hi
+      by_cases h0 : i = 0
+      · subst h0; simp
+      · simp [h0]
+    simp only [BitVec.setWidth_eq, e]
+
+/-- float → unsigned long, `comiss` says below 2^63 (or unordered): the plain signed truncation -/
+theorem eff_f32u64_below (F : FpuSpec) (s : FState)
+    (h : (F.comiss (s.xmm0.setWidth 32) 0x5f000000#32).flags.2.2 = true) :
+    ∃ s', Fp.run F f32u64.instrs s = some s' ∧ s'.x.get .rax = F.cvttss2si64 (s.xmm0.setWidth 32) ∧
+    s'.st = s.st ∧ s'.cw = s.cw ∧ s'.x.get .rsp = s.x.get .rsp := by
+  obtain ⟨x, xmm0, xmm1, st, cw⟩ := s
+  simp only at h
+  refine ⟨?w, ?hrun, ?rest⟩
+  case hrun =>
+    simp only [Fp.run, f32u64, Line.instrs]
+    rw [runFrom_step F _ _ _ _ rfl rfl (step_mov_c32 F _)]
+    rw [runFrom_step F _ _ _ _ rfl rfl rfl]
+    rw [runFrom_step F _ _ _ _ rfl rfl rfl]
+    rw [runFrom_jcc F _ _ _ true _ "1f" "1:" rfl rfl (fun _ => rfl) rfl]
+    dsimp only
+    have e : BitVec.setWidth 32 (BitVec.setWidth 64 ((x.setW Reg.rax W.w32 0x5f000000#32).getW Reg.rax W.w32)) = 0x5f000000#32 := by
+      simp [State.setW, State.getW]
+    simp only [FState.setRel, e, h, Bool.not_true, Bool.false_eq_true, if_false]
+    rfl
+  case rest =>
+    exact ⟨rfl, rfl, rfl, rfl⟩
+
+/-- float → unsigned long, not below 2^63: subtract 2^63, truncate, complement bit 63 -/
+theorem eff_f32u64_above (F : FpuSpec) (s : FState)
+    (h : (F.comiss (s.xmm0.setWidth 32) 0x5f000000#32).flags.2.2 = false) :
+    ∃ s', Fp.run F f32u64.instrs s = some s' ∧
+    s'.x.get .rax = F.cvttss2si64 (F.subss (s.xmm0.setWidth 32) 0x5f000000#32) ^^^ (1#64 <<< 63) ∧
+    s'.st = s.st ∧ s'.cw = s.cw ∧ s'.x.get .rsp = s.x.get .rsp := by
+  obtain ⟨x, xmm0, xmm1, st, cw⟩ := s
+  simp only at h
+  have e : BitVec.setWidth 32 (BitVec.setWidth 64 ((x.setW Reg.rax W.w32 0x5f000000#32).getW Reg.rax W.w32)) = 0x5f000000#32 := by
+    simp [State.setW, State.getW]
+  refine ⟨?w, ?hrun, ?rest⟩
+  case hrun =>
+    simp only [Fp.run, f32u64, Line.instrs]
+    rw [runFrom_step F _ _ _ _ rfl rfl (step_mov_c32 F _)]
+    rw [runFrom_step F _ _ _ _ rfl rfl rfl]
+    rw [runFrom_step F _ _ _ _ rfl rfl rfl]
+    rw [runFrom_jcc F _ _ _ true _ "1f" "1:" rfl rfl (fun _ => rfl) rfl]
+    dsimp only
+    simp only [FState.setRel, e, h, Bool.not_false, if_true]
+    rfl
+  case rest =>
+    refine ⟨?_, rfl, rfl, rfl⟩
+    dsimp only
+    rw [setLow32_low, e]
+    simp [State.get, State.set, State.setW]
+
+/-- double → unsigned long, below 2^63 (or unordered) -/
+theorem eff_f64u64_below (F : FpuSpec) (s : FState)
+    (h : (F.comisd s.xmm0 0x43e0000000000000#64).flags.2.2 = true) :
+    ∃ s', Fp.run F f64u64.instrs s = some s' ∧ s'.x.get .rax = F.cvttsd2si64 s.xmm0 ∧
+    s'.st = s.st ∧ s'.cw = s.cw ∧ s'.x.get .rsp = s.x.get .rsp := by
+  obtain ⟨x, xmm0, xmm1, st, cw⟩ := s
+  simp only at h
+  refine ⟨?w, ?hrun, ?rest⟩
+  case hrun =>
+    simp only [Fp.run, f64u64, Line.instrs]
+    rw [runFrom_step F _ _ _ _ rfl rfl (step_mov_c64 F _)]
+    rw [runFrom_step F _ _ _ _ rfl rfl rfl]
+    rw [runFrom_step F _ _ _ _ rfl rfl rfl]
+    rw [runFrom_jcc F _ _ _ true _ "1f" "1:" rfl rfl (fun _ => rfl) rfl]
+    dsimp only
+    have e : (x.set Reg.rax 0x43e0000000000000#64).get Reg.rax = 0x43e0000000000000#64 := by simp
+    simp only [FState.setRel, e, h, Bool.not_true, Bool.false_eq_true, if_false]
+    rfl
+  case rest =>
+    exact ⟨rfl, rfl, rfl, rfl⟩
+
+/-- double → unsigned long, not below 2^63 -/
+theorem eff_f64u64_above (F : FpuSpec) (s : FState)
+    (h : (F.comisd s.xmm0 0x43e0000000000000#64).flags.2.2 = false) :
+    ∃ s', Fp.run F f64u64.instrs s = some s' ∧
+    s'.x.get .rax = F.cvttsd2si64 (F.subsd s.xmm0 0x43e0000000000000#64) ^^^ (1#64 <<< 63) ∧
+    s'.st = s.st ∧ s'.cw = s.cw ∧ s'.x.get .rsp = s.x.get .rsp := by
+  obtain ⟨x, xmm0, xmm1, st, cw⟩ := s
+  simp only at h
+  have e : (x.set Reg.rax 0x43e0000000000000#64).get Reg.rax = 0x43e0000000000000#64 := by simp
+  refine ⟨?w, ?hrun, ?rest⟩
+  case hrun =>
+    simp only [Fp.run, f64u64, Line.instrs]
+    rw [runFrom_step F _ _ _ _ rfl rfl (step_mov_c64 F _)]
+    rw [runFrom_step F _ _ _ _ rfl rfl rfl]
+    rw [runFrom_step F _ _ _ _ rfl rfl rfl]
+    rw [runFrom_jcc F _ _ _ true _ "1f" "1:" rfl rfl (fun _ => rfl) rfl]
+    dsimp only
+    simp only [FState.setRel, e, h, Bool.not_false, if_true]
+    rfl
+  case rest =>
+    refine ⟨?_, rfl, rfl, rfl⟩
+    dsimp only
+    simp [State.get, State.set]
+
+
+/-! ### long double → unsigned long: prefix (compare with 2^63), branch, FROM_F80 with `fistpq`, bit 63 from %dl -/
+
+/-- neither a label nor a jump -/
+def straightB (i : Ins) : Bool :=
+  !isLabel i && !(i.op == "jmp" || i.op == "js" || i.op == "jns" || i.op == "je" || i.op == "jne" || i.op == "jae")
+
+theorem jumpOf_straight (i : Ins) (h : straightB i = true) (s : FState) : jumpOf i s = none := by
+  simp only [straightB, Bool.and_eq_true, Bool.not_eq_true', Bool.or_eq_false_iff, beq_eq_false_iff_ne, ne_eq] at h
+  obtain ⟨_, ⟨⟨⟨⟨h1, h2⟩, h3⟩, h4⟩, h5⟩, h6⟩ := h
+  unfold jumpOf
+  split <;> simp_all
+
+theorem runFrom_append (F : FpuSpec) (is js : List Ins) (hs : ∀ i ∈ is, straightB i = true) (s : FState) :
+    runFrom F (is ++ js) none s = (runFrom F is none s).bind (fun s' => runFrom F js none s') := by
+  induction is generalizing s with
+  | nil => simp [runFrom]
+  | cons i is ih =>
+    have hi := hs i (by simp)
+    have hl : isLabel i = false := by
+      simp only [straightB, Bool.and_eq_true, Bool.not_eq_true'] at hi; exact hi.1
+    have hj := jumpOf_straight i hi s
+    simp only [List.cons_append, runFrom, hl, Bool.false_eq_true, if_false, hj]
+    cases hstep : step F i s with
+    | none => simp
+    | some s' => simp [ih (fun j hj => hs j (by simp [hj])) s']
+
+def f80u64Pre : List Ins :=
+  [⟨"mov", [.s "$0x5f000000", .r "%eax"]⟩, ⟨"mov", [.r "%eax", .m (-4) "%rsp"]⟩, ⟨"flds", [.m (-4) "%rsp"]⟩,
+   ⟨"fxch", [.r "%st(1)"]⟩, ⟨"fcomi", [.r "%st(1)", .r "%st"]⟩, ⟨"setae", [.r "%dl"]⟩]
+
+def f80u64Mid : List Ins :=
+  [⟨"jae", [.s "1f"]⟩, ⟨"fstp", [.r "%st(1)"]⟩, ⟨"jmp", [.s "2f"]⟩, ⟨"1:", []⟩, ⟨"fsub", [.r "%st(1)", .r "%st"]⟩,
+   ⟨"fstp", [.r "%st(1)"]⟩, ⟨"2:", []⟩]
+
+def f80u64Post : List Ins :=
+  [⟨"movzbl", [.r "%dl", .r "%edx"]⟩, ⟨"shl", [.i 63, .r "%rdx"]⟩, ⟨"xor", [.r "%rdx", .r "%rax"]⟩]
+
+/-- the generated cell is: prefix, branch, the cell of long double → long, and the three instructions that set bit 63 -/
+theorem f80u64_split : f80u64.instrs = f80u64Pre ++ (f80u64Mid ++ (f80i64.instrs ++ f80u64Post)) := by decide
+
+/-- prefix: 2^63 is loaded below the operand, the two are compared, %dl := (operand ≥ 2^63) -/
+theorem eff_f80u64_pre (F : FpuSpec) (s : FState) (v : BitVec 80) (rest : List (BitVec 80)) (h : s.st = v :: rest) :
+    ∃ s', runFrom F f80u64Pre none s = some s' ∧
+      s'.st = v :: F.fld32 0x5f000000#32 :: rest ∧ s'.cw = s.cw ∧ s'.x.get .rsp = s.x.get .rsp ∧
+      s'.x.flagsValid = true ∧ s'.x.cf = (F.fcomi v (F.fld32 0x5f000000#32)).flags.2.2 ∧
+      (s'.x.get .rdx).setWidth 8 = (if (F.fcomi v (F.fld32 0x5f000000#32)).flags.2.2 then 0#8 else 1#8) := by
+  obtain ⟨x, xmm0, xmm1, st, cw⟩ := s
+  simp only at h; subst h
+  have e : ((x.setW Reg.rax W.w32 0x5f000000#32).write32 ((x.setW Reg.rax W.w32 0x5f000000#32).get Reg.rsp + BitVec.ofInt 64 (-4))
+      ((x.setW Reg.rax W.w32 0x5f000000#32).getW Reg.rax W.w32)).read32
+        ((x.setW Reg.rax W.w32 0x5f000000#32).get Reg.rsp + BitVec.ofInt 64 (-4)) = 0x5f000000#32 := by
+    rw [State.read32_write32]; simp [State.setW, State.getW]
+  refine ⟨?w, ?hrun, ?rest⟩
+  case hrun =>
+    simp only [f80u64Pre]
+    rw [runFrom_step F _ _ _ _ rfl rfl (step_mov_c32 F _)]
+    rfl
+  case rest =>
+    dsimp only
+    x86_norm
+    have e2 : BitVec.setWidth 32 (BitVec.setWidth 64 1593835520#32) = 1593835520#32 := by decide
+    simp only [State.get, State.regs_write32, FState.setRel, State.cond, e, e2]
+    generalize (F.fcomi v (F.fld32 1593835520#32)).flags.2.2 = c
+    refine ⟨?_, ?_, ?_, ?_, ?_, ?_⟩
+    · first | rfl | trivial
+    · first | rfl | trivial
+    · simp [State.setW, State.set]
+    · first | rfl | trivial
+    · first | rfl | trivial
+    · cases c <;> simp [State.setW, State.set, State.get] <;>
+        (apply BitVec.eq_of_toNat_eq; simp only [BitVec.toNat_ofNat]; omega)
+
+
+/-- branch: below 2^63 (CF = 1) the constant is dropped; otherwise it is subtracted first -/
+theorem eff_f80u64_mid (F : FpuSpec) (tl : List Ins) (s : FState) (v c : BitVec 80) (rest : List (BitVec 80))
+    (h : s.st = v :: c :: rest) (hv : s.x.flagsValid = true) :
+    runFrom F (f80u64Mid ++ tl) none s =
+      runFrom F tl none { s with st := (if s.x.cf then v else F.fsub s.cw v c) :: rest } := by
+  obtain ⟨x, xmm0, xmm1, st, cw⟩ := s
+  simp only at h hv; subst h
+  simp only [f80u64Mid, List.cons_append, List.nil_append]
+  rw [runFrom_jcc F _ _ _ true (!x.cf) "1f" "1:" rfl rfl (fun _ => hv) rfl]
+  cases hcf : x.cf
+  · -- CF = 0: taken
+    simp only [Bool.not_false, if_true, Bool.false_eq_true, if_false]
+    rfl
+  · simp only [Bool.not_true, Bool.false_eq_true, if_false, if_true]
+    rfl
+
+/-- the cell of long double → long leaves %rdx alone -/
+theorem eff_f80i64_rdx (F : FpuSpec) (s : FState) (v : BitVec 80) (rest : List (BitVec 80)) (h : s.st = v :: rest) :
+    ∃ s', run F f80i64.instrs s = some s' ∧
+    s'.x.get .rax = F.fistp64 (s.cw ||| 3072#16) v ∧
+    s'.st = rest ∧ s'.cw = s.cw ∧ s'.x.get .rsp = s.x.get .rsp ∧ s'.x.get .rdx = s.x.get .rdx := by
+  obtain ⟨x, xmm0, xmm1, st, cw⟩ := s
+  simp only at h; subst h
+  refine ⟨_, rfl, ?_⟩
+  dsimp only
+  x86_norm
+  rw [cwOr]
+  refine ⟨?_, ?_⟩
+  · first | rfl | simp
+  · simp only [State.read8, State.read16, State.read32, State.read64, State.write16, State.write32, State.write64,
+      State.mem_write8, State.mem_set, BitVec.add_assoc, BitVec.add_right_inj, BitVec.add_right_eq_self,
+      BitVec.self_eq_add_right, BitVec.reduceAdd, BitVec.reduceEq, if_true, if_false, ite_true, ite_false,
+      BitVec.ofNat_eq_ofNat]
+    exact split16 _
+
+/-- the last three instructions: bit 63 of %rax is complemented when %dl = 1 -/
+theorem eff_f80u64_post (F : FpuSpec) (s : FState) :
+    ∃ s', runFrom F f80u64Post none s = some s' ∧
+    s'.x.get .rax = s.x.get .rax ^^^ ((((s.x.get .rdx).setWidth 8).setWidth 32).setWidth 64 <<< 63) ∧
+    s'.st = s.st ∧ s'.cw = s.cw ∧ s'.x.get .rsp = s.x.get .rsp := by
+  obtain ⟨x, xmm0, xmm1, st, cw⟩ := s
+  refine ⟨_, rfl, ?_, rfl, rfl, ?_⟩
+  · dsimp only
+    simp [aluExec, State.flags, State.src, State.getW, State.setW, State.get, State.set]
+  · dsimp only
+    simp [aluExec, State.flags, State.src, State.getW, State.setW, State.get, State.set]
+
+
+/-- **long double → unsigned long**, the whole cell: with c = the extended 2^63 that `flds` pushed, below c (`fcomi` sets
+    CF; also when unordered) the operand is stored by `fistpq` under RC = 11b; otherwise c is subtracted first and bit 63 of
+    the stored integer is complemented.  The control word is restored, the operand and the constant are popped. -/
+theorem eff_f80u64 (F : FpuSpec) (s : FState) (v : BitVec 80) (rest : List (BitVec 80)) (h : s.st = v :: rest) :
+    ∃ s', run F f80u64.instrs s = some s' ∧
+    s'.x.get .rax = (if (F.fcomi v (F.fld32 0x5f000000#32)).flags.2.2 then F.fistp64 (s.cw ||| 3072#16) v
+                     else F.fistp64 (s.cw ||| 3072#16) (F.fsub s.cw v (F.fld32 0x5f000000#32)) ^^^ (1#64 <<< 63)) ∧
+    s'.st = rest ∧ s'.cw = s.cw ∧ s'.x.get .rsp = s.x.get .rsp := by
+  obtain ⟨s1, hrun1, hst1, hcw1, hrsp1, hfv1, hcf1, hdl1⟩ := eff_f80u64_pre F s v rest h
+  have hmid := eff_f80u64_mid F (f80i64.instrs ++ f80u64Post) s1 v (F.fld32 0x5f000000#32) rest hst1 hfv1
+  obtain ⟨s2, hrun2, hrax2, hst2, hcw2, hrsp2, hrdx2⟩ :=
+    eff_f80i64_rdx F { s1 with st := (if s1.x.cf then v else F.fsub s1.cw v (F.fld32 0x5f000000#32)) :: rest } _ rest rfl
+  obtain ⟨s3, hrun3, hrax3, hst3, hcw3, hrsp3⟩ := eff_f80u64_post F s2
+  refine ⟨s3, ?_, ?_, by rw [hst3, hst2], by rw [hcw3, hcw2, hcw1], by rw [hrsp3, hrsp2, hrsp1]⟩
+  · simp only [run] at hrun2 ⊢
+    rw [f80u64_split, runFrom_append F _ _ (by decide), hrun1]
+    simp only [Option.bind]
+    rw [hmid, runFrom_append F _ _ (by decide), hrun2]
+    simp only [Option.bind]
+    exact hrun3
+  · rw [hrax3, hrax2, hrdx2]
+    simp only at hcw1 ⊢
+    rw [hcf1, hcw1, hdl1]
+    cases (F.fcomi v (F.fld32 0x5f000000#32)).flags.2.2
+    · simp
+    · simp
 
 end ChibiVerif.Fp
